@@ -15,6 +15,16 @@ type PropSpec struct {
 }
 
 var properties = map[string]PropSpec{
+	"C19": {
+		Level: "other",
+		Explanation: "Explicitly narrow: necessary conditions of C19 only. MOVE: implode stores through the header exactly twice per step - the gap receives a non-nil value loaded from a later slot of the same stack (source slot = destination slot + a count proved >= 0) and exactly that source slot is then cleared - and stores no header: compaction moves existing values forward and fabricates, duplicates or drops nothing by itself. SCAN: implode's loop can be left only when the scan limit is reached (max <= count) or the slot about to be examined lies beyond the content (ulen <= start+count), by linear entailment at every exit - the last slot is examined too. GAP: defrag compacts, records an error and truncates only on paths where a nil element was found below the scan limit; a stack without nil elements is untouched. ERR: the error recorded is verifyImplode's own verdict and the header is truncated only under a nil verdict, after the compaction. NEST: Stack.Defrag consults IsNesting on every path on which the receiver was defragmented, visits elements 0..Len-1 in order and hands nested Stacks - direct elements or a Condition's expression, through both alias converters - the same scan limit. MAX: the scan limit is positive (50 unless a positive one is given). Index and slice ranges of defrag/implode/verifyImplode are C08's obligations (one of them, the truncation index, is the recorded assumption).",
+		NotDecided: "THE CORE OF C19 IS NOT DECIDED: that the result holds exactly the former non-nil elements in order, that Len equals their count and that Err() is nil. The truncation index and the verdict come from verifyImplode's pattern bookkeeping (a map filled in the same loop), a functional property of data out of reach of these domains. The pinned tree is in fact known - from an exhaustive run over all nil patterns of length <= 8 made by an independent test agent, not from this check - to violate the core for most patterns (e.g. Push(\"x\",nil,\"y\").Defrag() leaves [x y nil]; Push(nil,nil,nil,nil,4).Defrag() loses 4); the pinned test TestDefrag_experimental_001 hard-codes the resulting (wrong) length, so no repair can keep the unedited suite passing and none was made. This check neither reports nor masks that defect.",
+		Run: func(c *Ctx) {
+			c.ruleInv()
+			c.ruleDefrag()
+			c.rep.floor("R-DEFRAG", 4)
+		},
+	},
 	"C02": {
 		Level: "other",
 		Explanation: "Structural clauses of the String() grammar, each a necessary condition whose violation changes the rendering. NOT: in the Stack branch of defaultAssertionHandler every stack-level reading (kind, symbol, rendering) is made on the nested, converted Stack - never on the enclosing one; the NOT word is prefixed only on paths where the nested kind is NOT, it has no symbol and its rendering is non-empty (an empty nested stack contributes nothing: no dangling operator), and the word is exactly the one typ() of the nested stack returned, i.e. in the NOT stack's own case. EMPTY: stack.string collects renderings only by append(list, val) under len(val) > 0 for the very value defaultAssertionHandler returned for slot i (i = 1, 2, ... in stored order) and hands exactly that list to the assembler, so BASIC stacks, empty stacks and invalid Conditions (which render to the empty string) leave no dangling operator or delimiter. UTF8: condenseWHSP ranges over runes, writes every rune except blank (32) and tab (9) unchanged, writes one blank only for a blank or tab and uses no Unicode class test - leaf text of any script is reproduced verbatim. ENCAP: encapValue walks the pair list from the last pair to the first and wraps the value built so far as L+v+R or c+v+c, so the first configured pair ends up outermost; Condition expressions pass through it on every rendering path (R-ENCAP in C06). PAREN: stack.paren wraps exactly when the parenthetical bit is set and the kind is not BASIC (table over both atoms), with the same padding left and right. Rendering is gated by canString (valid and kind not BASIC) and the presentation policy dispatch (C14); option polarity of the getters is C18.",
